@@ -93,9 +93,131 @@ def extract(notes: list[str]) -> dict:
     return res
 
 
+# ---------------------------------------------------------------------------------------------
+# extension (C25 x): the rest of KeyedLock (constructor, lazy main lock, create/delete guards) and the
+# shape of the `asyncio.Lock` of the running interpreter, which `WfModel/KeyedLock.lean` models
+# (`Lock.fastPath`, FIFO append, `removeW` in the `finally`, `wakeFirst` on the cancellation path only
+# when unlocked, `release`, `_wake_up_first` waking only a not-done head).
+
+
+def _same(node: ast.AST | None, expected_src: str, mode: str = "exec") -> bool:
+    """structural equality of an AST node with the parse of `expected_src`"""
+    if node is None:
+        return False
+    exp = ast.parse(expected_src, mode=mode)
+    exp_node = exp.body if mode == "eval" else exp.body[0]
+    return ast.dump(node) == ast.dump(exp_node)
+
+
+def _strip_doc(body: list[ast.stmt]) -> list[ast.stmt]:
+    if body and isinstance(body[0], ast.Expr) and isinstance(getattr(body[0], "value", None), ast.Constant) \
+            and isinstance(body[0].value.value, str):
+        return body[1:]
+    return body
+
+
+def extract_ext(notes: list[str]) -> dict:
+    res = {"initEmptyState": False, "mainLockLazyOnce": False, "keyLockIsAsyncioLock": False, "createGuardedByAbsent": False,
+           "delBothAtZero": False, "lockFastPathShape": False, "lockAppendsFifo": False, "lockRemoveInFinally": False,
+           "lockCancelWakesIfUnlocked": False, "lockReleaseShape": False, "lockWakeFirstShape": False,
+           "lockAcquireAwaits": 999}
+    try:
+        tree = ast.parse(open(repo_path(SRC)).read())
+        cls = next(c for c in ast.walk(tree) if isinstance(c, ast.ClassDef) and c.name == "KeyedLock")
+        fns = {f.name: f for f in cls.body if isinstance(f, (ast.FunctionDef, ast.AsyncFunctionDef))}
+    except (OSError, SyntaxError, StopIteration) as e:
+        notes.append(f"gen/keyed_lock(ext): cannot find KeyedLock in {SRC}: {e!r}")
+        return res
+    init = fns.get("__init__")
+    if init is not None:
+        assigned = {}
+        for st in _strip_doc(init.body):
+            tgt = st.target if isinstance(st, ast.AnnAssign) else (st.targets[0] if isinstance(st, ast.Assign) and len(st.targets) == 1 else None)
+            val = getattr(st, "value", None)
+            if isinstance(tgt, ast.Attribute) and isinstance(tgt.value, ast.Name) and tgt.value.id == "self":
+                assigned[tgt.attr] = val
+        res["initEmptyState"] = (set(assigned) == {"_main_lock", "_locks", "_refs"}
+                                 and _same(assigned["_main_lock"], "None", "eval")
+                                 and _same(assigned["_locks"], "{}", "eval") and _same(assigned["_refs"], "{}", "eval"))
+    gml = fns.get("_get_main_lock")
+    if gml is not None:
+        body = _strip_doc(gml.body)
+        res["mainLockLazyOnce"] = (len(body) == 2
+                                   and _same(body[0], "if self._main_lock is None:\n    self._main_lock = asyncio.Lock()")
+                                   and _same(body[1], "return self._main_lock"))
+    call = fns.get("__call__")
+    if call is not None:
+        creates = [n for n in ast.walk(call) if isinstance(n, ast.If) and _same(n.test, "key not in self._locks", "eval")]
+        if len(creates) == 1 and not creates[0].orelse:
+            res["createGuardedByAbsent"] = True
+            res["keyLockIsAsyncioLock"] = any(_same(x, "self._locks[key] = asyncio.Lock()") for x in creates[0].body)
+        zeros = [n for n in ast.walk(call) if isinstance(n, ast.If) and isinstance(n.test, ast.Compare)
+                 and _is_refs_subscript(n.test.left)]
+        if len(zeros) == 1 and not zeros[0].orelse:
+            dumped = sorted(ast.dump(x) for x in zeros[0].body)
+            want = sorted(ast.dump(ast.parse(t).body[0]) for t in ("del self._locks[key]", "del self._refs[key]"))
+            res["delBothAtZero"] = dumped == want
+    # asyncio.Lock of the interpreter that runs the check (and the correspondence)
+    try:
+        import asyncio.locks as al
+        import inspect
+        ltree = ast.parse(inspect.getsource(al))
+        lcls = next(c for c in ltree.body if isinstance(c, ast.ClassDef) and c.name == "Lock")
+        lf = {f.name: f for f in lcls.body if isinstance(f, (ast.FunctionDef, ast.AsyncFunctionDef))}
+        acq, rel, wake = lf["acquire"], lf["release"], lf["_wake_up_first"]
+    except Exception as e:  # noqa: BLE001 - any failure = unknown shape
+        notes.append(f"gen/keyed_lock(ext): cannot read asyncio.locks.Lock: {e!r}")
+        return res
+    abody = _strip_doc(acq.body)
+    res["lockAcquireAwaits"] = sum(isinstance(n, ast.Await) for n in ast.walk(acq))
+    if abody and isinstance(abody[0], ast.If):
+        res["lockFastPathShape"] = (
+            _same(abody[0].test, "not self._locked and (self._waiters is None or all(w.cancelled() for w in self._waiters))", "eval")
+            and len(abody[0].body) == 2 and _same(abody[0].body[0], "self._locked = True") and _same(abody[0].body[1], "return True")
+            and not abody[0].orelse)
+    appends = [n for n in ast.walk(acq) if isinstance(n, ast.Call) and isinstance(n.func, ast.Attribute)
+               and isinstance(n.func.value, ast.Attribute) and n.func.value.attr == "_waiters"]
+    res["lockAppendsFifo"] = (sorted(n.func.attr for n in appends) == ["append", "remove"]
+                              and any(_same(n, "self._waiters.append(fut)", "eval") for n in appends))
+    outer = [n for n in abody if isinstance(n, ast.Try)]
+    if len(outer) == 1 and len(outer[0].body) == 1 and isinstance(outer[0].body[0], ast.Try):
+        inner = outer[0].body[0]
+        res["lockRemoveInFinally"] = (len(inner.body) == 1 and _same(inner.body[0], "await fut") and not inner.handlers
+                                      and len(inner.finalbody) == 1 and _same(inner.finalbody[0], "self._waiters.remove(fut)"))
+        hs = outer[0].handlers
+        if len(hs) == 1 and not outer[0].finalbody and isinstance(hs[0].type, ast.Attribute) and hs[0].type.attr == "CancelledError":
+            res["lockCancelWakesIfUnlocked"] = (len(hs[0].body) == 2
+                                                and _same(hs[0].body[0], "if not self._locked:\n    self._wake_up_first()")
+                                                and _same(hs[0].body[1], "raise"))
+        tail = abody[abody.index(outer[0]) + 1:]
+        if not (len(tail) == 2 and _same(tail[0], "self._locked = True") and _same(tail[1], "return True")):
+            res["lockRemoveInFinally"] = False
+    rbody = _strip_doc(rel.body)
+    res["lockReleaseShape"] = (len(rbody) == 1 and isinstance(rbody[0], ast.If) and _same(rbody[0].test, "self._locked", "eval")
+                               and len(rbody[0].body) == 2 and _same(rbody[0].body[0], "self._locked = False")
+                               and _same(rbody[0].body[1], "self._wake_up_first()")
+                               and len(rbody[0].orelse) == 1 and isinstance(rbody[0].orelse[0], ast.Raise))
+    wbody = _strip_doc(wake.body)
+    res["lockWakeFirstShape"] = (
+        len(wbody) == 3 and _same(wbody[0], "if not self._waiters:\n    return")
+        and isinstance(wbody[1], ast.Try) and len(wbody[1].body) == 1 and _same(wbody[1].body[0], "fut = next(iter(self._waiters))")
+        and _same(wbody[2], "if not fut.done():\n    fut.set_result(True)"))
+    for k, v in res.items():
+        if v is False:
+            notes.append(f"gen/keyed_lock(ext): shape `{k}` not recognised")
+    return res
+
+
 def generate(notes: list[str]) -> list[str]:
     r = extract(notes)
+    x = extract_ext(notes)
     b = lambda v: "true" if v else "false"
+    ext = [f"def {k} : Bool := {b(v)}" for k, v in x.items() if isinstance(v, bool)]
+    ext.append(f"def lockAcquireAwaits : Nat := {x['lockAcquireAwaits']}")
+    return _base(r, b)[:-1] + ext + ["end GenKeyedLock"]
+
+
+def _base(r: dict, b) -> list[str]:
     return [
         "namespace GenKeyedLock",
         f"def refInit : Int := {r['refInit']}",
